@@ -175,6 +175,7 @@ func main() {
 			rep.Note("engine %s: %d cases in %.1fs", e.name, rep.Evaluations-ev0, time.Since(t0).Seconds())
 		}
 	}
+	cleanupConverter()
 	if err != nil {
 		fmt.Fprintln(os.Stderr, "corr_c10:", err)
 		rep.Note("engine error: %v", err)
